@@ -204,11 +204,14 @@ def _operand(e):
     return s
 
 
-_BARE = re.compile(r"^[a-zA-Z][a-zA-Z0-9_-]*$")
+_BARE = re.compile(r"[a-zA-Z][a-zA-Z0-9_-]*")
 
 
 def _field(n):
-    return n if _BARE.match(n) else _str_lit(n)
+    # fullmatch: `$` would also match before a trailing newline (a false alarm of the first C03 run)
+    if _BARE.fullmatch(n) and not n.startswith(("NULL", "true", "false")):
+        return n
+    return _str_lit(n)
 
 
 def pr_stmt(s):
